@@ -514,6 +514,19 @@ else:
         from pytato.diagnostic import NameClashError
         raise NameClashError($$msg)
 """)
+    # the same with dict.setdefault: the first instance keeps the name, any other
+    # instance under it is a clash (possibly in a helper handed the table)
+    pvi = m.inlined(pv)
+    body = body or [e for e in find(pvi, f"""
+$o = self.name_to_input.setdefault({pe}.name, {pe})
+if $o is not {pe}:
+    from pytato.diagnostic import NameClashError
+    raise NameClashError($$msg)
+""")] or [e for e in find(pvi, f"""
+$o = self.name_to_input.setdefault({pe}.name, {pe})
+if $o is not {pe}:
+    raise NameClashError($$msg)
+""")]
     c.check(len(body) == 1, "R15-CLASH", "NamesValidityChecker.post_visit",
             "first-seen-recorded;different-object-same-name-raises", where,
             "the first input seen under a name is not recorded, or a different input "
